@@ -42,7 +42,7 @@ type Case struct {
 var boxes = []string{"one", "two", "three"}
 
 var opGen = rapid.Custom(func(t *rapid.T) Op {
-	k := rapid.SampledFrom([]string{"deliver", "deliver", "deliver", "deliver", "deliver", "remove", "remove", "purge", "scan", "failadd"}).Draw(t, "k")
+	k := rapid.SampledFrom([]string{"deliver", "deliver", "deliver", "deliver", "deliver", "remove", "remove", "purge", "scan", "failadd", "recap"}).Draw(t, "k")
 	op := Op{K: k, Box: rapid.IntRange(0, 2).Draw(t, "box"), N: rapid.IntRange(0, 20).Draw(t, "n"),
 		Size: rapid.SampledFrom([]int{1, 50, 200, 400, 700, 1200}).Draw(t, "size")}
 	if k == "deliver" && rapid.IntRange(0, 2).Draw(t, "multi") == 0 {
@@ -137,7 +137,7 @@ func judge(stored, deleted []key, lv map[key]bool, deliveries map[string]int) st
 
 var prop = hx.Prop[Case]{
 	ID: pid, Name: "events",
-	Rule: "rapid-generated histories of 5-60 deliveries (through the manager), deliveries that fail in the store (content reader error), removes, purges and retention scans on mem (cap 0/1/2/3 x " +
+	Rule: "rapid-generated histories of 5-60 deliveries (through the manager), deliveries that fail in the store (content reader error), removes, purges, retention scans and (file) reopening the store with another cap on mem (cap 0/1/2/3 x " +
 		"maxkb 0/1/2) and file (cap) stores, with listeners registered through the public extension.Host API on both after-events; oracle " +
 		"(order-free, after quiescence): exactly one stored event per delivery with distinct (mailbox,id); every deleted event names a " +
 		"message announced as stored, at most once, that is no longer in the store; stored minus deleted = exactly the messages " +
@@ -211,6 +211,15 @@ func run(c Case) *hx.Outcome {
 			after, _ := w.Store.GetMessages(box)
 			if len(after) <= len(before) {
 				evicting = true
+			}
+		case "recap":
+			// the server is restarted on the same directory with another per-mailbox cap (file store):
+			// mailboxes may now hold more than the cap, the next delivery evicts several at once
+			if c.Backend == "file" {
+				newCap := []int{1, 2, 3, 0, 1}[op.N%5]
+				w.Store = hx.NewFile(w.Host, w.Dir, newCap)
+				w.Manager.Store = w.Store
+				o.Class("file store reopened with another cap")
 			}
 		case "failadd":
 			// the content reader fails half way: the store must refuse the delivery, and a refused
